@@ -3,7 +3,8 @@ package main
 // C07: a sequential client while connections are lost, backends stop and come back, and the layout changes.
 //   case line:  <nnodes> <layout> # <op> ; ...
 //   case line:  <nnodes> <layout> [rep=<m>,<m>..] # ...   (a replica of each master named; configured hosts too)
-//   ops:  q <request tokens>    qx <request tokens> (the node executes it and drops the connection: lost:<executions>)    kill <n>    down <n>    up <n>    lay <lo> <hi> <n>    w    promote <m> (the master
+//   ops:  cdown / cup (every keyed command answers CLUSTERDOWN / the cluster is up again)
+//         q <request tokens>    qx <request tokens> (the node executes it and drops the connection: lost:<executions>)    kill <n>    down <n>    up <n>    lay <lo> <hi> <n>    w    promote <m> (the master
 //         goes down for good, its replica takes over its slots)
 //   output per request:  ok:<reply>:<node>:<first|same|new>:<r|->   or   err
 //     (node that executed; whether the connection it arrived on is the one the previous request to that node used;
@@ -217,6 +218,11 @@ func runC07(line string) string {
 			default:
 				outs = append(outs, fmt.Sprintf("lost:%d", ex))
 			}
+		case "cdown", "cup":
+			// the cluster reports itself down (every keyed command answers CLUSTERDOWN) / is up again
+			cl.mu.Lock()
+			cl.down = fs[0] == "cdown"
+			cl.mu.Unlock()
 		case "kill":
 			cl.nodes[arg(1)].killConns()
 		case "down":
@@ -426,6 +432,12 @@ func init() {
 						v = bulkArr([]byte("incr"), k)
 					default:
 						v = bulkArr([]byte("get"), k)
+					}
+					if r.chance(1, 14) {
+						// the cluster is down for one request; afterwards everything is served again at once
+						ops = append(ops, "cdown", "q "+v.String(), "cup", "q "+bulkArr([]byte("get"), k).String(), "q "+bulkArr([]byte("get"), []byte("k"+strconv.Itoa(r.intn(30)))).String())
+						hist["cluster down for one request"]++
+						continue
 					}
 					if r.chance(1, 12) {
 						ops = append(ops, "qx "+bulkArr([]byte("incr"), k).String(), "w", "q "+bulkArr([]byte("get"), k).String())
